@@ -127,6 +127,21 @@ def _exec_life(sc):
                                      weakly=(bool(sc["facts"]) if sc["extended"] is None else bool(sc["extended"])))
                         if not a["raised"]:
                             evs.append({"ev": "zop", "cond": M.cond_vec(B, A, sig), "result": a["obs"][0] == "T", "text": M.render_cond(B, A)})
+                elif k == "zview":
+                    # position of each conditional of the partition: base conditionals by identity, fact conditionals by their running index
+                    o1 = objs[0]
+                    pos = {id(c): i + 1 for i, c in enumerate(bb.conditionals[kk] for kk in keys)}
+                    top = max(keys, default=0)
+                    where = lambda c: pos[id(c)] if id(c) in pos else (len(keys) + (c.index - top) if isinstance(getattr(c, "index", None), int) and c.index > top else -1)
+                    layers = [[where(c) for c in layer] for layer in o1._z_partition]
+                    if oi > 1:  # a reloaded copy has its own conditional objects: same partition, conditional by conditional (C20)
+                        evs.append({"ev": "same", "what": "z-partition", "a": json.dumps([[str(c) for c in layer] for layer in o1._z_partition]),
+                                    "b": json.dumps([[str(c) for c in layer] for layer in o._z_partition])})
+                    ip = o.infinity_partition
+                    evs.append({"ev": "zview", "o": oi, "layers": layers, "sizes": [int(x) for x in o.partition_layer_sizes()], "extended": bool(o.uses_extended_partition),
+                                "inf_index": -1 if o.infinity_partition_index is None else int(o.infinity_partition_index),
+                                "inf_keys": [] if ip is None else layers[-1] if ip is o._z_partition[-1] else [-2], "has_inf": bool(o.has_infinity_partition),
+                                "text": o.format_partition_layers(), "summary": o.summary()[:200]})
                 elif k == "isocf":
                     evs.append({"ev": "isocf", "o": oi, "result": bool(o.is_ocf())})
                 elif k == "condexist":
@@ -335,6 +350,10 @@ def gen_scenarios(rng, kinds, n, persistence):
             ranks = [rng.choice([0, 0, 1, 2, 3, 4]) for _ in range(nw)] if rng.random() < 0.7 else [rng.choice([0, 2, 9, 10, 11, 30]) for _ in range(nw)]
             sc["custom"] = ranks
         sc["ops"] = gen_ops(rng, sig, nw, rng.choice([4, 6, 8]), persistence)
+        if kind == "z":  # the object's view of its own partition, on the original and on the last copy
+            sc["ops"].insert(rng.randrange(len(sc["ops"]) + 1), ["zview", 1])
+            if persistence:
+                sc["ops"].append(["zview", 99])
         out.append(sc)
     return out
 
